@@ -47,10 +47,10 @@ type RunSpec struct {
 	UnwindPolicy  string            `json:"unwind_policy"` // "obligation:<id>": a loop that can exceed the bound is a violation (non-termination)
 	ExpectSat     []string          `json:"expect_sat"`    // obligation ids that are informational witnesses
 	Informational []string          `json:"informational"`
-	TwoRun        string            `json:"two_run"`      // obligation id prefix: run the harness in two-run non-interference mode (sym/tworun.go)
-	TwoRunOnly    bool              `json:"two_run_only"` // keep only the two-run obligations
+	TwoRun        string            `json:"two_run"`            // obligation id prefix: run the harness in two-run non-interference mode (sym/tworun.go)
+	TwoRunOnly    bool              `json:"two_run_only"`       // keep only the two-run obligations
 	ConcIdx       bool              `json:"concretize_indices"` // replace symbolic array indices that can take only one value by that constant (solver-backed)
-	MapReverse    bool              `json:"map_reverse"`  // iterate maps with concrete keys in descending key order (order-independence runs)
+	MapReverse    bool              `json:"map_reverse"`        // iterate maps with concrete keys in descending key order (order-independence runs)
 }
 
 type Spec struct {
